@@ -225,15 +225,15 @@ def gen_convert(om, functions, header):
             if not (len(body) == 1 and isinstance(body[0], ast.Return)
                     and ast.dump(body[0].value) == ast.dump(tmpl)):
                 raise Unsupported(fn, "OPCODE.convert is no longer `[disassemble(self.args[0], allow_unknown=True)]`")
-            text = ("(* hera/op.py:%d  OPCODE.convert = [disassemble(self.args[0], allow_unknown=True)]: shape "
-                    "checked here, defined in Model/Disasm.v *)\n"
+            text = ("(* hera/op.py  OPCODE.convert = [disassemble(self.args[0], allow_unknown=True)]: shape "
+                    "checked here, defined in Model/Bitvec.v (convert_full) *)\n"
                     "Definition convert_OPCODE (self_ : op) : res (list op) := Raise (ModelError %s).\n"
-                    % (fn.lineno, coq_string("OPCODE.convert is defined in Model/Disasm.v")))
+                    % (coq_string("OPCODE.convert is defined in Model/Bitvec.v"),))
         else:
             cv = Conv(om, concrete, d, gen, functions)
             body = cv.stmts(fn.body)
-            text = ("(* hera/op.py:%d  %s.convert as seen from %s *)\n"
-                    "Definition %s (self_ : op) : res (list op) :=\n%s.\n" % (fn.lineno, d, concrete, name, body))
+            text = ("(* hera/op.py  %s.convert as seen from %s *)\n"
+                    "Definition %s (self_ : op) : res (list op) :=\n%s.\n" % (d, concrete, name, body))
         done[name] = text
         order.append(name)
         return name
@@ -354,5 +354,5 @@ def gen_operation_length(om, tree):
             return "(if %s then %s else %s)" % (cond(st[0].test), body(st[0].body), body(st[0].orelse))
         raise Unsupported(st[0] if st else fn, "statement in operation_length")
 
-    return ("(* hera/checker.py:%d *)\nDefinition operation_length (o : op) : Z :=\n%s.\n"
-            % (fn.lineno, body(fn.body)))
+    return ("(* hera/checker.py *)\nDefinition operation_length (o : op) : Z :=\n%s.\n"
+            % (body(fn.body),))
